@@ -59,7 +59,11 @@ CHECKS = {
             "Seeded search over nesting histories against a parent-link model: enclosing, walk to the unit's root in exactly the modelled number of steps, owners, handler regions, positions and levels in homogeneous scopes. Evidence, not proof.",
             "Trusted: the reference model and observer in /verif/model (expectations are built from operation inputs only), AddressSanitizer/UBSan, the simulated allocator. Sampling, not enumeration: a clean batch means no counterexample among the runs explored.",
             "4/C12"),
-    "C13": (False, "", "", "", "4/C13"),
+    "C13": (True,
+            TECH + ": lifecycle client creating, using, destroying and re-creating Lexicons in place (lifo reuse) under the scheduler, with a constant battery and spelling->constant routes evaluated at random moments against the run's global history",
+            "Seeded search over instance lifetimes and usage histories: every Lexicon at every time must return the same static nodes for the constants, correctly spelled and typed, and every public route from a spelling must end at the constant. The stateless part (pairwise distinct, spellings) rides along. Evidence, not proof.",
+            "Trusted: the reference model and observer in /verif/model, the simulated allocator (accounting, poisoning), AddressSanitizer/UBSan (and ThreadSanitizer for C20's third layer). Sampling, not enumeration.",
+            "4/C13"),
     "C14": (True,
             TECH + ": seeded histories leaving nodes partially built, followed by accessor sweeps with out-of-range probing of every sequence, under ASan+UBSan",
             "Seeded search over partially built states; every accessor of every reachable node and every sequence index from 0 to beyond size() must return a touchable result or throw std::logic_error; sanitizer reports fail the run. Evidence, not proof.",
@@ -85,8 +89,16 @@ CHECKS = {
             "Every kind the workload can build is offered to every entry point; seeded graphs with spellings over all byte values are printed on simulated streams; termination (process survival), stream state, decimal numbers, control bytes and printer indentation are checked; with a failing sink only termination and memory safety. Evidence, not proof.",
             "Trusted: the reference model and observer in /verif/model, the acyclicity discipline of the graph generator (DESIGN.md), AddressSanitizer/UBSan, the simulated allocator and stream buffer. Sampling, not enumeration.",
             "4/C18"),
-    "C19": (False, "", "", "", "4/C19"),
-    "C20": (False, "", "", "", "4/C20"),
+    "C19": (True,
+            TECH + ": full workload on up to four Lexicons destroyed and re-created in place; deterministic leak accounting by the simulated heap per destroyed Lexicon; fault enumeration sub-runs failing every allocation of sampled histories in turn",
+            "Seeded search over construction/destruction histories with heap reuse; after each destruction the simulated heap's live set for that Lexicon must be empty; sanitizers watch every step; sampled histories get every allocation failed in turn (memory safety and earlier-results-intact only). Evidence, not proof; the enumerated sub-space is exhaustive only relative to the sampled history.",
+            "Trusted: the reference model and observer in /verif/model, the simulated allocator (accounting, poisoning), AddressSanitizer/UBSan (and ThreadSanitizer for C20's third layer). Sampling, not enumeration.",
+            "4/C19"),
+    "C20": (True,
+            TECH + ": 2-8 clients with own Lexicons interleaved by the seeded scheduler, traces compared with solo runs, per-client sub-arenas for address ownership, static-storage monitor over libipr's writable statics; plus real threads under ThreadSanitizer (uncontrolled schedule, sanitizer layer)",
+            "Seeded search over client programs and interleavings: per-client traces must equal solo traces, every address received must be the client's own or static, no static of libipr may be written on behalf of two Lexicons; a ThreadSanitizer layer runs the same programs on real threads (its schedule is the kernel's and is reported as such). Evidence, not proof.",
+            "Trusted: the reference model and observer in /verif/model, the simulated allocator (accounting, poisoning), AddressSanitizer/UBSan (and ThreadSanitizer for C20's third layer). Sampling, not enumeration.",
+            "4/C20"),
 }
 
 NOT_APPLICABLE = {
@@ -118,7 +130,7 @@ def main():
     na.sort(key=lambda e: e["property_id"])
     manifest = {
         "version": 1,
-        "setup_cmd": "./verif build asan",
+        "setup_cmd": "./verif build asan tsan",
         "hooks": {
             "guard": "IPR_VERIF",
             "enable": "no hook exists in /repo: every seam is reached without touching the library (link-time operator new/delete replacement, harness-owned streambuf, harness as only caller); checks nevertheless compile /repo with -DIPR_VERIF",
